@@ -20,7 +20,10 @@ CONSTANTS
   OPS = {"clone", "collect", "drop", "new", "put", "set", "setcfg"}
   AUTOF = TRUE
   AUTO0 = TRUE
-  SZ = 152
+  SZ = 160
+  CLEAN = FALSE
+  MaxActs = 0
+  BUG_CLEAN_REENTRANT = FALSE
 INVARIANT NoViolation
 INVARIANT StructInv
 VIEW View
